@@ -2,6 +2,7 @@ package compiler
 
 import (
 	"fmt"
+	gotoken "go/token"
 	"slices"
 	"sort"
 	"strconv"
@@ -19,6 +20,7 @@ import (
 
 type syntaxLoader struct {
 	resolver       *resolver
+	targetLang     string
 	noEmptyRules   bool
 	optSuffix      string // if non-empty, triggers auto-instantiation of optional nonterminals
 	aliasOptSuffix bool   // whether the default alias of a non-terminal symbol includes the opt suffix.
@@ -56,6 +58,7 @@ func newSyntaxLoader(resolver *resolver, targetLang string, opts *grammar.Option
 
 	return &syntaxLoader{
 		resolver:       resolver,
+		targetLang:     targetLang,
 		noEmptyRules:   opts.NoEmptyRules,
 		optSuffix:      opts.OptInstantiationSuffix,
 		aliasOptSuffix: opts.AliasIncludesOptSuffix,
@@ -368,6 +371,11 @@ func (c *syntaxLoader) collectDirectives(p ast.ParserSection) {
 			}
 			if _, ok := c.namedSets[name.Text()]; ok {
 				c.Errorf(name, "redeclaration of token set '%v'", name.Text())
+				continue
+			}
+			if c.targetLang == "go" && !gotoken.IsIdentifier(name.Text()) {
+				// Named sets are exported into the generated code as variables under their own names.
+				c.Errorf(name, "token set '%v' cannot be exported to Go: its name must be a valid Go identifier (and not a keyword)", name.Text())
 				continue
 			}
 
